@@ -201,7 +201,9 @@ theorem parse_ok_take {ipOf : IpOf} {buf : Bytes} {h : Header} {n : Nat} (hp : p
         have : magic2.isPrefixOf (magic2 ++ List.take m (vc :: fp :: l1 :: l2 :: r3)) = true :=
           List.isPrefixOf_iff_prefix.mpr ⟨_, rfl⟩
         simp only [this, if_true, List.drop_left, htk, toRes]
-  · simp only [h2] at hp
+  · have h2' : magic2.isPrefixOf buf = false := Bool.eq_false_iff.mpr h2
+    rw [h2'] at hp
+    simp only [Bool.false_eq_true, if_false] at hp
     by_cases h1 : magic1.isPrefixOf buf = true
     · simp only [h1, if_true] at hp
       obtain ⟨t, rfl⟩ := List.isPrefixOf_iff_prefix.mp h1
@@ -222,7 +224,9 @@ theorem parse_ok_take {ipOf : IpOf} {buf : Bytes} {h : Header} {n : Nat} (hp : p
           have hp2 := magic1_excludes_magic2 _ hp1
           simp only [hp2, hp1, if_true, List.drop_left, htk, toRes]
           simp
-    · simp only [h1] at hp
-      split at hp <;> cases hp
+    · have h1' : magic1.isPrefixOf buf = false := Bool.eq_false_iff.mpr h1
+      have h2' : magic2.isPrefixOf buf = false := Bool.eq_false_iff.mpr h2
+      rw [h1'] at hp
+      by_cases hl : buf.length ≥ magic2.length <;> simp [hl] at hp
 
 end SquidModel.Proxyp
